@@ -32,7 +32,16 @@ func CompareRec(got dns.RR, want *ExpRec) error {
 	if h.Class != want.Class {
 		return fmt.Errorf("class %d, want %d", h.Class, want.Class)
 	}
-	if h.Ttl != want.TTL {
+	if len(want.TTLAlts) > 0 {
+		ok := false
+		for _, v := range want.TTLAlts {
+			ok = ok || v == h.Ttl
+		}
+		if !ok {
+			return fmt.Errorf("TTL %d, want one of %v (the file's own state or a value of the text just included / generated)", h.Ttl, want.TTLAlts)
+		}
+		want = &ExpRec{Owner: want.Owner, TTL: h.Ttl, Class: want.Class, Type: want.Type, RR: withTTL(want.RR, h.Ttl)}
+	} else if h.Ttl != want.TTL {
 		return fmt.Errorf("TTL %d, want %d", h.Ttl, want.TTL)
 	}
 	if _, ok := want.RR.(*HeaderOnly); ok {
@@ -58,6 +67,26 @@ func CompareRec(got dns.RR, want *ExpRec) error {
 		return fmt.Errorf("RDATA differs:\n got  %#v\n want %#v", norm, exp)
 	}
 	return nil
+}
+
+func withTTL(rr dns.RR, ttl uint32) dns.RR {
+	c := cloneRR(rr)
+	c.Header().Ttl = ttl
+	return c
+}
+
+// CompareOutcome checks records and final error of a parse against the denotation of a valid
+// zone (den.Err == ""): all records and no error, or - where a record may be refused for want
+// of a TTL source - the records before it and an error.
+func CompareOutcome(got []dns.RR, perr error, den *Denotation) error {
+	if perr != nil {
+		k := len(got)
+		if k < len(den.Recs) && den.Recs[k].MayFail {
+			return Compare(got, den.Recs[:k])
+		}
+		return fmt.Errorf("parser reports %v after %d of %d records", perr, len(got), len(den.Recs))
+	}
+	return Compare(got, den.Recs)
 }
 
 // Compare checks a parsed record list against the denotation.
